@@ -1,90 +1,91 @@
 (* C12 — a session that ends, at any point and for any reason, releases everything it held.
-   Property statements only; proofs live in Proofs/Transfer.v.  genF = the transfer model
-   instantiated with the facts regenerated from server.py (the statements of the dispatcher's
-   finally block with their guards, the workers' async-with items, detach-first, decorators). *)
+   Property statements only; proofs live in Proofs/Transfer.v and Proofs/TransferFixed.v.  genF = the transfer model
+   instantiated with the facts regenerated from server.py (the statements of the dispatcher's finally block with
+   their guards, the workers' async-with items, detach-first, decorators, listener start-up give-back). *)
 From Coq Require Import ZArith List Bool String.
-From Verif Require Import Lib.Sx Lib.Facts Model.Transfer Proofs.Transfer Proofs.TransferGen Gen.Dispatch Gen.Workers.
+From Verif Require Import Lib.Sx Lib.Facts Model.Transfer Proofs.Transfer Proofs.TransferFixed Proofs.TransferGen Gen.Dispatch Gen.Workers.
 Import ListNotations.
 Open Scope list_scope.
 
-(* closed obligations over today's source: every worker takes the stream out of the session first
-   and owns it through `async with`; the finally block, model-checked on every session
-   configuration, cancels and awaits all tasks, closes listener / data / control, returns the port,
-   releases the slots and pops the table entry.  Computes false if e.g. `stream.close()` or
-   `connection.data_connection.close()` disappears or a worker stops using `async with`. *)
+(* closed obligations over today's source: every worker takes the stream out of the session first and owns it
+   through an `async with` whose FIRST item is the stream (false on the former `async with file, stream`); the
+   finally block, model-checked on every session configuration, cancels and awaits all tasks, closes listener /
+   data / control, returns the port, releases the slots and pops the table entry.  Computes false if e.g.
+   `connection.data_connection.close()` disappears, a worker stops using `async with`, or the file is entered
+   before the stream again. *)
 Lemma C12_translator_ok : Dispatch.translator_ok = true /\ Workers.translator_ok = true.
 Proof. vm_compute. split; reflexivity. Qed.
 (* the two translators agree on the workers' structure (Proofs/TransferGen.v) *)
 Lemma C12_translators_agree : translators_agree = true.
 Proof. exact gen_translators_agree. Qed.
-Lemma C12_facts_ok : sound12 genF = true.
+Lemma C12_facts_ok : repaired12 genF = true.
 Proof. vm_compute. reflexivity. Qed.
 
 (* ledger = [control; listener; port; data in session; data in worker; file handles; tasks;
              slot; user slot; table entry] *)
 
-(* From EVERY reachable state - any command / transfer in any stage, any number of workers, any
-   block count - and for every reason (QUIT, peer EOF, handler exception, idle timeout, server
-   close), the finally block followed by at most |ctx|+1 steps of each cancelled worker, with no
-   further input, leaves the ledger empty - provided the state is not in a hole (hole_free:
-   no listener start-up in progress [F5], no worker parked on the file open before the stream is
-   inside the `async with` [F4], nothing already abandoned by such an event). *)
+(* From EVERY reachable state of a live session - any command / transfer in any stage (the back-end open included),
+   any number of workers, any block count - and for every reason (QUIT, peer EOF, handler exception, idle timeout,
+   server close), the finally block followed by at most |ctx|+1 steps of each cancelled worker, with no further
+   input, leaves the ledger empty.  The ONE premise left (hence _partial): no listener start-up is in progress
+   (startup_free: lst is neither LTaking nor LBound - finding F5, not repaired). *)
 Theorem C12_end_releases_all_partial : forall st ev,
-  reachable genF st -> alive (ss st) = true -> hole_free genF st = true -> ends ev = true ->
+  reachable genF st -> alive (ss st) = true -> startup_free (ss st) = true -> ends ev = true ->
   ledger_empty (ledger genF (unwind genF (fst (step genF st ev)))) = true.
-Proof. exact (fun st ev Hr Ha Hh He => end_releases_all_reachable genF st ev C12_facts_ok Hr Ha Hh He). Qed.
+Proof. exact (fun st ev => end_releases_all_repaired genF st ev C12_facts_ok). Qed.
 Print Assumptions C12_end_releases_all_partial.
 
-(* the same for a session that ends because a reaped task raised (a cancelled worker: F2; a socket
-   timeout in a worker; ...) *)
+(* the same for a session that ends because a reaped task raised (a socket timeout in a worker, ...) *)
 Theorem C12_end_by_failed_task_partial : forall st,
-  reachable genF st -> alive (ss st) = true -> hole_free genF st = true ->
+  reachable genF st -> alive (ss st) = true -> startup_free (ss st) = true ->
   alive (ss (fst (step genF st Reap))) = false ->
   ledger_empty (ledger genF (unwind genF (fst (step genF st Reap)))) = true.
-Proof. exact (fun st => reap_end_releases genF st C12_facts_ok). Qed.
+Proof. exact (fun st => reap_end_releases_repaired genF st C12_facts_ok). Qed.
 Print Assumptions C12_end_by_failed_task_partial.
 
-(* "without waiting for further input": a cancelled worker reaches a terminal stage within
-   |ctx| + 1 of its own steps *)
+(* "without waiting for further input": EVERY worker of a reachable state, once cancelled, reaches a terminal
+   stage within |ctx| + 1 of its own steps (no carve-out) *)
 Theorem C12_unwinding_terminates : forall st w,
-  reachable genF st -> In w (ws st) -> w_leak w = false -> hole genF w = false ->
+  reachable genF st -> In w (ws st) ->
   terminal (w_stage (fst (wrun genF (List.length (wf_ctx (wfof genF w)) + 1) (fst (cancel genF w))))) = true.
-Proof. exact (unwinding_terminates_reachable genF). Qed.
+Proof. exact (fun st w => unwinding_terminates_repaired genF st w C12_facts_ok). Qed.
 Print Assumptions C12_unwinding_terminates.
 
 (* Server.close(): the main listener is closed, every session ends and unwinds, all ledgers empty *)
 Theorem C12_server_close_completes : forall srv,
-  Forall (fun st => reachable genF st /\ alive (ss st) = true /\ hole_free genF st = true) (sessions srv) ->
+  Forall (fun st => reachable genF st /\ alive (ss st) = true /\ startup_free (ss st) = true) (sessions srv) ->
   server_ledger_empty genF (server_close genF srv) = true.
-Proof. exact (fun srv => server_close_completes genF srv C12_facts_ok). Qed.
+Proof. exact (fun srv => server_close_completes_repaired genF srv C12_facts_ok). Qed.
 Print Assumptions C12_server_close_completes.
 
-(* non-vacuity: mid-transfer states (with a non-empty ledger) satisfy the hypotheses *)
+(* non-vacuity: mid-transfer states (with a non-empty ledger) satisfy the hypotheses; the third one is the former
+   F4 witness: STOR parked on the back-end open (now EnteringCtx 1, the stream already inside the `async with`) *)
 Example C12_partial_nonvacuous :
   forallb (fun evs => let st := at_trace evs in
-                      alive (ss st) && hole_free genF st && negb (ledger_empty (ledger genF st))
+                      alive (ss st) && startup_free (ss st) && negb (ledger_empty (ledger genF st))
                       && Z.ltb 0 (nth 4 (ledger genF st) 0%Z + nth 5 (ledger genF st) 0%Z))
     [ pre_data ++ [Spawn KRetr [1;2;3]%Z; WStep 0; WStep 0; WStep 0; WStep 0; WStep 0; WStep 0];
       pre_data ++ [Spawn KStor [1;2]%Z; WStep 0; WStep 0; WStep 0; WStep 0];
+      pre_data ++ [Spawn KStor [1;2]%Z; WStep 0; WStep 0; WStep 0];
       pre_data ++ [Spawn KList [1]%Z; WStep 0; WStep 0; WStep 0; WStep 0];
-      pre_data ++ [Spawn KRetr [1]%Z; WStep 0; WStep 0; WStep 0; WStep 0; WStep 0; WStep 0; WStep 0; WStep 0] ] = true.
+      pre_data ++ [Spawn KRetr [1]%Z; WStep 0; WStep 0; WStep 0; WStep 0; WStep 0; WStep 0; WStep 0] ] = true.
 Proof. vm_compute. reflexivity. Qed.
 
-(* THE FULL STATEMENT (kept visible; false on today's code) *)
+(* the former F4 witness, now an instance of the theorem: the session ends while STOR's back-end open is
+   suspended - the stream is inside the `async with`, its exit closes it *)
+Example C12_file_open_hole_closed :
+  let st := at_trace (pre_data ++ [Spawn KStor [1;2]%Z; WStep 0; WStep 0; WStep 0]) in
+  alive (ss st) = true /\ map w_stage (ws st) = [EnteringCtx 1]
+  /\ nth 4 (ledger genF st) 0%Z = 1%Z
+  /\ ledger genF (unwind genF (fst (step genF st PeerEOF))) = [0;0;0;0;0;0;0;0;0;0]%Z.
+Proof. vm_compute. repeat split; reflexivity. Qed.
+
+(* THE FULL STATEMENT (kept visible; false on today's code because of F5 only) *)
 Definition end_releases_all : Prop := forall st ev,
   reachable genF st -> alive (ss st) = true -> ends ev = true ->
   ledger_empty (ledger genF (unwind genF (fst (step genF st ev)))) = true.
 
-(* F4: the session ends while STOR's file open is suspended (file context entered before the
-   stream): the detached data stream stays open (slot 4), everything else is released *)
-Theorem C12_end_releases_all_refuted_file_open :
-  let st := at_trace (pre_data ++ [Spawn KStor [1;2]%Z; WStep 0; WStep 0]) in
-  alive (ss st) = true /\ map w_stage (ws st) = [EnteringCtx 0]
-  /\ ledger genF (unwind genF (fst (step genF st PeerEOF))) = [0;0;0;0;1;0;0;0;0;0]%Z.
-Proof. vm_compute. repeat split; reflexivity. Qed.
-Print Assumptions C12_end_releases_all_refuted_file_open.
-
-(* F5: the session ends while PASV is inside `await asyncio.start_server` : before the bind the
+(* F5 (not repaired): the session ends while PASV is inside `await asyncio.start_server` : before the bind the
    port taken from the pool is never returned (slot 2); after the bind a listener owned by
    nobody stays as well (slot 1) *)
 Theorem C12_end_releases_all_refuted_listener_startup :
